@@ -20,13 +20,14 @@
 (*   A3  array, rank 1, dim D31 (data-frame)                               *)
 (*   A4  array, rank 2, set dimension without labels followed by a labelled one *)
 (*   A5  array, rank 2, two range dimensions                                *)
+(*   A6  array, rank 2, two sampled dimensions; referenced by tag T2 (units for both dimensions) *)
 (*   T   tag referencing A1 (units for both dimensions), feature FT        *)
 (*   M   multi-tag with positions P, referencing A2, feature FM            *)
 (*   S   section with property PR                                          *)
 (***************************************************************************)
 EXTENDS NixCommon
 
-Entities == {"A1", "A2", "A3", "A4", "A5", "D11", "D12", "D21", "D31", "T", "M", "FT", "FM", "S", "PR", "B"}
+Entities == {"A1", "A2", "A3", "A4", "A5", "A6", "T2", "D11", "D12", "D21", "D31", "T", "M", "FT", "FM", "S", "PR", "B"}
 
 \* breach -> [hard?, entity that must carry the error]
 Rules == [
@@ -52,7 +53,9 @@ Rules == [
   offset_nounit |-> [hard |-> FALSE, at |-> "D11"],
   prop_nounit   |-> [hard |-> FALSE, at |-> "PR"],
   dimunit1      |-> [hard |-> TRUE,  at |-> "T"],    \* unit of A1's first DIMENSION changed to one the tag's unit is not convertible to
-  dimunit2      |-> [hard |-> TRUE,  at |-> "T"] ]
+  dimunit2      |-> [hard |-> TRUE,  at |-> "T"],
+  ndims_missing |-> [hard |-> TRUE,  at |-> "A6"],   \* FEWER descriptors than data dimensions (one of two); the tag T2 still names units for both
+  ndims_none    |-> [hard |-> TRUE,  at |-> "A6"] ]  \* no descriptor at all
 Breaches == DOMAIN Rules
 
 \* combinations that cannot be built together (they change the same attribute in incompatible ways)
@@ -60,6 +63,7 @@ Compatible(B) == /\ Cardinality(B \cap {"tagunit1", "tagunit2", "dimunit1", "dim
                  /\ ~({"interval0", "offset_nounit"} \subseteq B)  \* offset_nounit removes the unit the tag-unit check needs: keep apart from unit rules
                  /\ ~({"offset_nounit", "tagunit1"} \subseteq B)
                  /\ ~({"offset_nounit", "dimunit1"} \subseteq B)
+                 /\ ~({"ndims_missing", "ndims_none"} \subseteq B)
 
 \* breaches that can be taken back in place (the others delete something that cannot be re-created under the same id)
 Repairable == Breaches \ {"ndims_extra", "ndims_extra2", "nopositions", "featnodata", "featnodata2"}
